@@ -52,6 +52,11 @@ func main() {
 	bg := fl.Bool("bg", false, "background sync/compaction workers (stress)")
 	shard := fl.Int("shard", 0, "lock: run schedules j with j % workers == shard")
 	open2 := fl.Bool("open2", false, "competing Open calls while the database is open (C13)")
+	claims := fl.Bool("claims", false, "framing: garbage headers of all size classes (C19)")
+	afterCompact := fl.Bool("aftercompact", false, "Sync/Put/Delete/Backup after every Compact (C15)")
+	hold := fl.Bool("hold", false, "keep and re-read every slice the database returns (C14)")
+	huge := fl.Bool("huge", false, "sizes: include the 512 MiB limit (needs ~3 GB of memory and disk)")
+	golden := fl.String("golden", "/verif/golden", "golden corpus directory")
 	in := fl.String("in", "", "program file (ndjson) to replay instead of random programs")
 	fl.Parse(os.Args[2:])
 	t0 := time.Now()
@@ -139,12 +144,18 @@ func main() {
 			}
 			cfg := h.SmallCfg(rng, false)
 			cfg.FS = *fsname
+			cfg.Strict = *strict
 			cfg.MaxSeg = []uint32{2048, 8192, 65536}[rng.Intn(3)]
 			p := h.GenProgram(rng, fmt.Sprintf("seq-%s-%d-%d", *fsname, *seed, i), cfg, h.GenOpts{
 				Keys: keys, Ops: *nops, BigVals: rng.Intn(3) == 0, Compact: true, Reopen: true, Sync: true, Reads: true, Close: false, Churn: true,
-				Inject: *inject, Backup: *backup, Scans: *scans, MoreReopen: *alt, Open2: *open2})
+				Inject: *inject, Backup: *backup, Scans: *scans, MoreReopen: *alt, Open2: *open2, AfterCompact: *afterCompact})
+			if *afterCompact && i%3 == 2 {
+				cfg.MinFrag = 0.0001
+				p = h.EmptyingProgram(rng, p.ID+"-empty", cfg, keys)
+			}
+			p.Cfg.Strict = *strict
 			var r *h.Runner
-			rp := h.RunParams{Mode: "seq", Seed: *seed + int64(i), Probe: len(keys) > 16, FullEvery: 25, Alt: *alt}
+			rp := h.RunParams{Mode: "seq", Seed: *seed + int64(i), Probe: len(keys) > 16, FullEvery: 25, Alt: *alt, Hold: *hold}
 			if *fsname == "crashfs" {
 				r = h.NewRunner(rec, p, rp)
 			} else {
@@ -153,6 +164,8 @@ func main() {
 			if err := r.Run(p); err != nil {
 				rec.Emit(h.Ev{"e": "note", "what": "run ended: " + err.Error()})
 				tot["ended_early"]++
+			} else {
+				r.CloseAndDecode()
 			}
 			r.Finish()
 			tot["ops"] += r.Ops
@@ -248,6 +261,140 @@ func main() {
 		tot["events"] = rec.Events
 		tot["recordings"] = rec.Recs
 		writeStats(*stats, tot, samples, t0)
+	case "framing":
+		h.PinSeed(0x1b873593)
+		rec, err := h.NewRec(*out)
+		if err != nil {
+			fatal(err)
+		}
+		tot := map[string]int{}
+		for i := 0; i < *n; i++ {
+			c := h.Framing(rec, h.FramingOpts{ID: fmt.Sprintf("framing-%d-%d", *seed, i), Seed: *seed*1000003 + int64(i), Claims: *claims})
+			tot["cases"]++
+			if c > 1<<24 {
+				tot["huge_claims"]++
+			}
+		}
+		if err := rec.Close(); err != nil {
+			fatal(err)
+		}
+		tot["events"] = rec.Events
+		tot["recordings"] = rec.Recs
+		writeStats(*stats, tot, nil, t0)
+	case "sizes":
+		// boundary lengths and size limits (C16), sequentially or with crash images
+		h.PinSeed(uint32(0x2545f491 + *seed))
+		rec, err := h.NewRec(*out)
+		if err != nil {
+			fatal(err)
+		}
+		tot := map[string]int{}
+		var samples []interface{}
+		for i := 0; i < *n; i++ {
+			rng := rand.New(rand.NewSource(*seed*1000003 + int64(i)))
+			cfg := h.Cfg{FS: *fsname, MaxSeg: []uint32{2048, 4096, 70000, 1 << 20}[rng.Intn(4)], MinSeg: 1, MinFrag: 0.2}
+			if *huge {
+				cfg.MaxSeg = 0 // the default: 4 GiB
+			}
+			p := h.SizesProgram(rng, fmt.Sprintf("sizes-%s-%s-%d-%d", *mode, *fsname, *seed, i), cfg, *huge)
+			var r *h.Runner
+			rp := h.RunParams{Mode: *mode, Seed: *seed + int64(i), Hold: false}
+			if *fsname == "crashfs" {
+				r = h.NewRunner(rec, p, rp)
+			} else {
+				r = h.NewRunnerOn(rec, p, fmt.Sprintf("%s/sizes-%d-%d-%d", *dir, os.Getpid(), *seed, i), rp)
+			}
+			if *huge {
+				r.ReadEvery = false
+			}
+			if err := r.Run(p); err != nil {
+				rec.Emit(h.Ev{"e": "note", "what": "run ended: " + err.Error()})
+				tot["ended_early"]++
+			} else {
+				r.CloseAndDecode()
+			}
+			r.Finish()
+			tot["ops"] += r.Ops
+			tot["images"] += r.Images
+			tot["distinct_images"] += r.Distinct
+			tot["programs"]++
+			if i < 1 {
+				samples = append(samples, h.Ev{"id": p.ID, "cfg": p.Cfg, "first_ops": p.Ops[:10]})
+			}
+			if *fsname != "crashfs" {
+				os.RemoveAll(fmt.Sprintf("%s/sizes-%d-%d-%d", *dir, os.Getpid(), *seed, i))
+			}
+		}
+		if err := rec.Close(); err != nil {
+			fatal(err)
+		}
+		tot["events"] = rec.Events
+		tot["recordings"] = rec.Recs
+		writeStats(*stats, tot, samples, t0)
+	case "diff":
+		// the same program on fs.Mem, fs.OS, fs.OSMMap and crashfs (C17)
+		ks := h.PinSeed(uint32(0x85ebca6b + *seed))
+		rec, err := h.NewRec(*out)
+		if err != nil {
+			fatal(err)
+		}
+		tot := map[string]int{}
+		var samples []interface{}
+		for i := 0; i < *n; i++ {
+			rng := rand.New(rand.NewSource(*seed*1000003 + int64(i)))
+			keys := append(ks.InClass(2, uint32(i), *nkeys/2), ks.Plain(*nkeys-*nkeys/2)...)
+			cfg := h.SmallCfg(rng, false)
+			p := h.GenProgram(rng, fmt.Sprintf("diff-%d-%d", *seed, i), cfg, h.GenOpts{Keys: keys, Ops: *nops, BigVals: true, Compact: true,
+				Reopen: true, Sync: true, Reads: true, Churn: true, Tear: true})
+			h.Diff(rec, p, *dir, *seed+int64(i))
+			tot["programs"]++
+			tot["ops"] += len(p.Ops) * 4
+			if i < 1 {
+				samples = append(samples, h.Ev{"id": p.ID, "cfg": p.Cfg, "first_ops": p.Ops[:10]})
+			}
+		}
+		if err := rec.Close(); err != nil {
+			fatal(err)
+		}
+		tot["events"] = rec.Events
+		tot["recordings"] = rec.Recs
+		writeStats(*stats, tot, samples, t0)
+	case "golden-gen":
+		if err := h.GoldenGen(*dir); err != nil {
+			fatal(err)
+		}
+		writeStats(*stats, map[string]int{"generated": 1}, nil, t0)
+	case "golden-check":
+		rec, err := h.NewRec(*out)
+		if err != nil {
+			fatal(err)
+		}
+		cnt, err := h.GoldenCheck(rec, *golden, *dir, *seed)
+		if err != nil {
+			fatal(err)
+		}
+		if err := rec.Close(); err != nil {
+			fatal(err)
+		}
+		writeStats(*stats, map[string]int{"opened": cnt, "events": rec.Events, "recordings": rec.Recs}, nil, t0)
+	case "steady":
+		rec, err := h.NewRec(*out)
+		if err != nil {
+			fatal(err)
+		}
+		tot := map[string]int{}
+		for i := 0; i < *n; i++ {
+			d := fmt.Sprintf("%s/steady-%d-%d-%d", *dir, os.Getpid(), *seed, i)
+			tot["ops"] += h.Steady(rec, fmt.Sprintf("steady-%s-%d-%d", *fsname, *seed, i), *fsname, d, *nops, *nkeys, *seed*31+int64(i))
+			tot["runs"]++
+			os.RemoveAll(d)
+		}
+		if err := rec.Close(); err != nil {
+			fatal(err)
+		}
+		tot["events"] = rec.Events
+		tot["recordings"] = rec.Recs
+		writeStats(*stats, tot, nil, t0)
 	case "regress":
 		// replays recorded failing programs with the runner parameters they were found with
 		rec, err := h.NewRec(*out)
